@@ -43,6 +43,7 @@ pub enum PolynomialDegree {
 pub struct FastFixedIn<T> {
     nbr_channels: usize,
     chunk_size: usize,
+    history_len: usize,
     last_index: f64,
     resample_ratio: f64,
     resample_ratio_original: f64,
@@ -232,13 +233,18 @@ where
 
         validate_ratios(resample_ratio, max_resample_ratio_relative)?;
 
-        let buffer = vec![vec![T::zero(); chunk_size + 2 * POLYNOMIAL_LEN_U]; nbr_channels];
+        // The read position can lag the end of a chunk by more than the longest step,
+        // and the next step may be shorter, so the history must cover the longest step.
+        let history_len =
+            2 * POLYNOMIAL_LEN_U + (max_resample_ratio_relative / resample_ratio).ceil() as usize;
+        let buffer = vec![vec![T::zero(); chunk_size + history_len]; nbr_channels];
 
         let channel_mask = vec![true; nbr_channels];
 
         Ok(FastFixedIn {
             nbr_channels,
             chunk_size,
+            history_len,
             last_index: -(POLYNOMIAL_LEN_I / 2) as f64,
             resample_ratio,
             resample_ratio_original: resample_ratio,
@@ -289,12 +295,12 @@ where
 
         // Update buffer with new data.
         for buf in self.buffer.iter_mut() {
-            buf.copy_within(self.chunk_size..self.chunk_size + 2 * POLYNOMIAL_LEN_U, 0);
+            buf.copy_within(self.chunk_size..self.chunk_size + self.history_len, 0);
         }
 
         for (chan, active) in self.channel_mask.iter().enumerate() {
             if *active {
-                self.buffer[chan][2 * POLYNOMIAL_LEN_U..2 * POLYNOMIAL_LEN_U + self.chunk_size]
+                self.buffer[chan][self.history_len..self.history_len + self.chunk_size]
                     .copy_from_slice(&wave_in[chan].as_ref()[..self.chunk_size]);
             }
         }
@@ -317,6 +323,7 @@ where
         //);
 
         let mut idx = self.last_index;
+        let history_len = self.history_len as isize;
 
         let mut n = 0;
 
@@ -333,8 +340,8 @@ where
                         if *active {
                             unsafe {
                                 let buf = self.buffer.get_unchecked(chan).get_unchecked(
-                                    (start_idx + 2 * POLYNOMIAL_LEN_I) as usize
-                                        ..(start_idx + 2 * POLYNOMIAL_LEN_I + 8) as usize,
+                                    (start_idx + history_len) as usize
+                                        ..(start_idx + history_len + 8) as usize,
                                 );
                                 *wave_out
                                     .get_unchecked_mut(chan)
@@ -358,8 +365,8 @@ where
                         if *active {
                             unsafe {
                                 let buf = self.buffer.get_unchecked(chan).get_unchecked(
-                                    (start_idx + 2 * POLYNOMIAL_LEN_I) as usize
-                                        ..(start_idx + 2 * POLYNOMIAL_LEN_I + 6) as usize,
+                                    (start_idx + history_len) as usize
+                                        ..(start_idx + history_len + 6) as usize,
                                 );
                                 *wave_out
                                     .get_unchecked_mut(chan)
@@ -383,8 +390,8 @@ where
                         if *active {
                             unsafe {
                                 let buf = self.buffer.get_unchecked(chan).get_unchecked(
-                                    (start_idx + 2 * POLYNOMIAL_LEN_I) as usize
-                                        ..(start_idx + 2 * POLYNOMIAL_LEN_I + 4) as usize,
+                                    (start_idx + history_len) as usize
+                                        ..(start_idx + history_len + 4) as usize,
                                 );
                                 *wave_out
                                     .get_unchecked_mut(chan)
@@ -408,8 +415,8 @@ where
                         if *active {
                             unsafe {
                                 let buf = self.buffer.get_unchecked(chan).get_unchecked(
-                                    (start_idx + 2 * POLYNOMIAL_LEN_I) as usize
-                                        ..(start_idx + 2 * POLYNOMIAL_LEN_I + 2) as usize,
+                                    (start_idx + history_len) as usize
+                                        ..(start_idx + history_len + 2) as usize,
                                 );
                                 *wave_out
                                     .get_unchecked_mut(chan)
@@ -432,7 +439,7 @@ where
                                 let point = self
                                     .buffer
                                     .get_unchecked(chan)
-                                    .get_unchecked((start_idx + 2 * POLYNOMIAL_LEN_I) as usize);
+                                    .get_unchecked((start_idx + history_len) as usize);
                                 *wave_out
                                     .get_unchecked_mut(chan)
                                     .as_mut()
